@@ -65,8 +65,29 @@ func driveC10(t *testing.T, out *vEmitter) {
 				}
 				rw := httptest.NewRecorder()
 				if st > 0 && r.Intn(5) == 0 {
-					trace = append(trace, "clear")
-					if err := e.p.sessionStore.Clear(rw, req); err != nil {
+					// every other clear on the in-memory Redis client happens while the store refuses the delete: the clear
+					// reports the error, and the browser is still told to drop its ticket - once the store answers again
+					// nothing loads for this browser
+					outage := e.redis != nil && r.Intn(2) == 0
+					if outage {
+						trace = append(trace, "clear(store refuses the delete)")
+						e.redis.ResetOps()
+						e.redis.hook = func(kind, key string) {
+							if kind == "del" {
+								e.redis.mu.Lock()
+								e.redis.faults[len(e.redis.ops)] = vErrBefore
+								e.redis.mu.Unlock()
+							}
+						}
+					} else {
+						trace = append(trace, "clear")
+					}
+					err := e.p.sessionStore.Clear(rw, req)
+					if outage {
+						e.redis.hook = nil
+						e.redis.ResetOps()
+						out.Stat("c10_clears_during_outage", 1)
+					} else if err != nil {
 						out.Violation("session-store/clear-error", "Clear failed on a healthy store", map[string]interface{}{"store": k.name, "error": err.Error(), "trace": trace})
 					}
 					last = nil
